@@ -9,6 +9,7 @@ PROP = dict(
     rule='umount L / umount -all / umount on mounted stacks with manual recursive binds below build roots, stacked host submounts and random process users; non-trivial: an umount step issues a syscall',
     explanation='per step Coq evaluates: model step = observed step (result class, operation log, file tree, kernel table, '
                 'layer states) from the observed world before it, and the C03 predicate on the observed worlds',
-    assumptions=['in-process runs use a simulated kernel mount table (harness/simk = coq/Model/Kernel.v); the file tree is real',
+    assumptions=['constants regenerated from the source on every run (Gen/Consts.v) that the predicate or the documented part of the model rests on -- LayerconfigFile, SkeletonLayerconfigFile -- are compared with literals by theorem C03_constants_pinned: an edit of one of them is reported (proof obligation no longer checks) and has to be reviewed; values the manual does not state are the values of the reviewed tree',
+        'in-process runs use a simulated kernel mount table (harness/simk = coq/Model/Kernel.v); the file tree is real',
                  'layer names are ASCII; one local file system; symlinks resolved for the last component only'],
 )
